@@ -214,6 +214,7 @@ pub fn c04(cfg: &Value) {
     let mode = cfg["mode"].as_str().unwrap_or("separate").to_string();
     let boxed = cfg["boxed"].as_bool().unwrap_or(false);
     let flushers = cfg["flushers"].as_u64().unwrap_or(1) as usize;
+    PROBE_FIRST.store(cfg["probe_first"].as_bool().unwrap_or(false), std::sync::atomic::Ordering::Relaxed);
     if let Some(k) = cfg["jump_k"].as_u64() {
         vtime::jump_at_read(k, Duration::from_secs(2));
     }
